@@ -65,6 +65,9 @@ type c11Case struct {
 	InRep  int   `json:"in_rep,omitempty"`      // >0: this many inputs
 	QForm  int   `json:"quote_form,omitempty"`  // how the quote object is put together, see quote.libForm
 	Huge   bool  `json:"huge_output,omitempty"` // the first output carries 2^64-4 satoshis, the inputs 1000
+	// HugeIn (with Huge): 0 = inputs of 1000; 1 = inputs of 5000 (more than the outputs' sum modulo 2^64);
+	// 2 = two inputs of 2^63 each (their sum wraps as well: mathematically inputs exceed the first output by 4)
+	HugeIn int `json:"huge_inputs,omitempty"`
 }
 
 func c11Build(c c11Case) *txref.Tx {
@@ -127,7 +130,7 @@ func c11Check(c c11Case) (fs []rep.Finding) {
 		in = new(big.Int).Add(out, big.NewInt(1_000_000_000))
 	}
 	if c.Huge {
-		in = big.NewInt(1000)
+		in = big.NewInt([]int64{1000, 5000, 0}[c.HugeIn])
 	}
 	if in.Sign() < 0 || len(ref.Ins) == 0 {
 		in = big.NewInt(0)
@@ -135,6 +138,12 @@ func c11Check(c c11Case) (fs []rep.Finding) {
 	if len(ref.Ins) > 0 {
 		ref.Ins[0].PrevSats = in.Uint64()
 		est.Ins[0].PrevSats = in.Uint64()
+	}
+	if c.Huge && c.HugeIn == 2 && len(ref.Ins) >= 2 {
+		for i := 0; i < 2; i++ {
+			ref.Ins[i].PrevSats = 1 << 63
+			est.Ins[i].PrevSats = 1 << 63
+		}
 	}
 	tx := toLib(ref)
 	fq := c.Q.libForm(c.QForm)
@@ -316,7 +325,7 @@ func c11ErrCheck(c c11Err) (fs []rep.Finding) {
 
 func init() {
 	p := register(&Prop{ID: "C11", Level: "exploration",
-		Rule: "exhaustive: (accounting) every multiset-ordered choice of <=2 (quick) / <=3 (thorough) outputs from 13 script kinds (P2PKH, OP_RETURN alone/empty/1/75/76-byte, OP_FALSE OP_RETURN with 65536-byte payload and bare, `00`, `00 51 6a`, empty, OP_RETURN not first) x inputs 0..3 x signing state (none/all/first/short scripts) x 11 fee quotes (independent std/data rates incl. >1 sat/byte, non-dyadic rates, zero) x in-out placed at {fee-1, fee, fee+1, out>in, equal, ample} relative to the big-integer reference fee of the actual and of the estimated size: TotalBytes=len(bytes)=Std+Data, fee = floor+floor, predicates exact; (signed) 8 keys x nIn 1..3 x nOut 0..2 x every subset of inputs pre-signed x plain/inscription spent script, paying to the hash of the compressed key, of the uncompressed form of the same key, or of another key: EstimateSize >= size after FillAllInputs; (counts) 252/253/254 outputs with 0..2 inputs and 252/253/254 inputs with 0..2 outputs x quotes x fee relations; (errors) every position x 12 missing/unsupported spent scripts (incl. five P2PKH look-alikes: hash through PUSHDATA1, opcodes as pushed bytes, 21-byte hash, leading NOP) x signed/unsigned: every estimator returns an error; (wrap) outputs totalling 2^64-4 and more against inputs of 1000; (quote forms) the same quotes assembled through 8 other call sequences (refreshed from JSON into a quote object that already held default / other rates, Fee objects labelled with the other type, unlabelled, through FeeQuotes.UpdateMinerFees, update of existing entries, relabelled copy, a fresh default quote after another default quote's Fee objects were changed in place); (builders) outputs built by AddOpReturnOutput / AddOpReturnPartsOutput / CreateOpReturnOutput for item lengths {1,2,75,76,255,256,65535,65536} (single and pairs) and AddHashPuzzleOutput: script equals the reference layout and is counted as data / standard bytes accordingly. distinct_nontrivial = distinct (tx bytes, quote, relation) triples",
+		Rule: "exhaustive: (accounting) every multiset-ordered choice of <=2 (quick) / <=3 (thorough) outputs from 13 script kinds (P2PKH, OP_RETURN alone/empty/1/75/76-byte, OP_FALSE OP_RETURN with 65536-byte payload and bare, `00`, `00 51 6a`, empty, OP_RETURN not first) x inputs 0..3 x signing state (none/all/first/short scripts) x 11 fee quotes (independent std/data rates incl. >1 sat/byte, non-dyadic rates, zero) x in-out placed at {fee-1, fee, fee+1, out>in, equal, ample} relative to the big-integer reference fee of the actual and of the estimated size: TotalBytes=len(bytes)=Std+Data, fee = floor+floor, predicates exact; (signed) 8 keys x nIn 1..3 x nOut 0..2 x every subset of inputs pre-signed x plain/inscription spent script, paying to the hash of the compressed key, of the uncompressed form of the same key, or of another key: EstimateSize >= size after FillAllInputs; (counts) 252/253/254 outputs with 0..2 inputs and 252/253/254 inputs with 0..2 outputs x quotes x fee relations; (errors) every position x 12 missing/unsupported spent scripts (incl. five P2PKH look-alikes: hash through PUSHDATA1, opcodes as pushed bytes, 21-byte hash, leading NOP) x signed/unsigned: every estimator returns an error; (wrap) outputs totalling 2^64-4 and more against inputs of 1000, of 5000 (more than the outputs' sum modulo 2^64) and of 2^63+2^63; (quote forms) the same quotes assembled through 8 other call sequences (refreshed from JSON into a quote object that already held default / other rates, Fee objects labelled with the other type, unlabelled, through FeeQuotes.UpdateMinerFees, update of existing entries, relabelled copy, a fresh default quote after another default quote's Fee objects were changed in place); (builders) outputs built by AddOpReturnOutput / AddOpReturnPartsOutput / CreateOpReturnOutput for item lengths {1,2,75,76,255,256,65535,65536} (single and pairs) and AddHashPuzzleOutput: script equals the reference layout and is counted as data / standard bytes accordingly. distinct_nontrivial = distinct (tx bytes, quote, relation) triples",
 	})
 	sA := NewSpace(p, "accounting", c11Check)
 	sS := NewSpace(p, "signed", c11SignCheck)
@@ -374,6 +383,10 @@ func init() {
 				for _, q := range c11Quotes {
 					for _, sg := range []int{0, 1, 2} {
 						bc = append(bc, c11Case{Outs: os, NIn: nin, Signed: sg, Q: q, Rel: 3, Huge: true})
+						bc = append(bc, c11Case{Outs: os, NIn: nin, Signed: sg, Q: q, Rel: 3, Huge: true, HugeIn: 1})
+						if nin == 2 {
+							bc = append(bc, c11Case{Outs: os, NIn: nin, Signed: sg, Q: q, Rel: 3, Huge: true, HugeIn: 2})
+						}
 					}
 				}
 			}
